@@ -124,3 +124,8 @@ def replay(case):
     e = ge.from_src(case["expr"])
     o = case.get("ordering")
     canonicalize(e, [Variable(n) for n in o] if o is not None else None)
+
+
+def install_for_suite():
+    mon_dsl.CONFIG["idempotence"] = False
+    mon_dsl.install_canon()
